@@ -7,12 +7,23 @@ recs = {}
 for f in sorted(glob.glob('/verif/tools/mutants/results/*.json'), key=os.path.getmtime):
     for r in json.load(open(f)):
         recs[r['src']] = r
+# expectations may have been documented after a run: take them from the mutant lists
+for f in glob.glob('/verif/tools/mutants/*.json'):
+    for n, e in enumerate(json.load(open(f))):
+        src = '%s#%d' % (os.path.basename(f), n)
+        if src in recs:
+            recs[src]['expected'] = e.get('expected', 'caught')
+            recs[src]['why_not'] = e.get('why_not', '')
 by = {}
 for r in recs.values():
     b = by.setdefault(r['prop'], dict(total=0, caught=0, nc_expected=0, nc_unexpected=0, other=0, notes=[]))
     b['total'] += 1
     if r['result'] == 'CAUGHT':
         b['caught'] += 1
+    elif r['result'] in ('NOT-CAUGHT', 'INFRA') and r.get('expected') == 'not-caught':
+        b['nc_expected'] += 1
+        if '-v' in sys.argv:
+            b['notes'].append(r['src'] + ' (documented): ' + r['note'][:70] + ' -- ' + r.get('why_not', '')[:160])
     elif r['result'] == 'NOT-CAUGHT':
         if r.get('expected') == 'not-caught':
             b['nc_expected'] += 1
